@@ -124,6 +124,7 @@ class StmtMixin:
         gb = self.contract.ghost_before if self.contract else None
         kb = self._ghost_key(node, gb)
         if kb:
+            self.ghost_hit.add(("before", kb))
             self._run_ghost(node, st, gb[kb], kb)
         saved = self.raised
         self.raised = []
@@ -135,6 +136,7 @@ class StmtMixin:
         ga = self.contract.ghost_after if self.contract else None
         ka = self._ghost_key(node, ga)
         if ka:
+            self.ghost_hit.add(("after", ka))
             for o in outs:
                 if o.kind == "fall":
                     self._run_ghost(node, o.st, ga[ka], ka)
@@ -392,7 +394,7 @@ class StmtMixin:
                     f = sub.func
                     if isinstance(f, ast.Attribute):
                         if isinstance(f.value, ast.Name) and f.value.id == "self":
-                            c = w.by_method.get(f.attr)
+                            c = self.lookup_contract(f.attr)
                             if c is not None:
                                 locs += c.modifies
                             else:
@@ -421,6 +423,7 @@ class StmtMixin:
         body = list(node.body) + list(node.orelse)
         names = assigned_names(body)
         ga = {}
+        ghost_hav = []
         if self.contract:
             for tbl in (self.contract.ghost_after, self.contract.ghost_before):
                 for k_, v_ in tbl.items():
@@ -438,16 +441,34 @@ class StmtMixin:
                                 if nm.startswith("self."):
                                     if nm in st.heap:
                                         self.havoc_loc(st, nm)
+                                        ghost_hav.append(nm)
                                 else:
                                     names.append(nm)
         for n in names:
             if n in st.env and isinstance(st.env[n], Val):
                 st.env[n] = fresh(st.env[n].sort, n)
                 self.assume_wf(st, st.env[n])
+        hav = []
         for loc in self.heap_mods(body):
             if loc in st.heap:
                 self.havoc_loc(st, loc)
+                hav.append(loc)
+        self.loop_havocked = getattr(self, "loop_havocked", {})
+        self.loop_havocked[id(node)] = set(hav) | set(ghost_hav)
         return names
+
+    def check_loop_writes(self, node, head: St, outs):
+        """Soundness guard of the loop rule: every heap location a body path changed must be one the
+        (syntactic) havoc analysis reset at the loop head - otherwise the state after the loop would
+        silently keep its pre-loop value."""
+        hav = getattr(self, "loop_havocked", {}).get(id(node), set())
+        for o in outs:
+            for loc, v1 in o.st.heap.items():
+                v0 = head.heap.get(loc)
+                if v0 is None or loc in hav:
+                    continue
+                if not all(a.eq(b) for a, b in zip(v0.t, v1.t)):
+                    raise Unsupported(node, f"loop body writes {loc} which the loop havoc analysis did not reset")
 
     def check_invs(self, spec, st, kind, ordn, node, extra_env=None):
         s2 = st
@@ -499,7 +520,9 @@ class StmtMixin:
                 sb = sh.copy()
                 sb.env.update(loopenv(i))
                 self.assign_target(node.target, src.item_at(i), sb)
-                for o in self.exec_block(node.body, sb):
+                body_outs = self.exec_block(node.body, sb)
+                self.check_loop_writes(node, sb, body_outs)
+                for o in body_outs:
                     if o.kind in ("fall", "continue"):
                         self.check_invs(spec, o.st, "inv-step", ordn, node, loopenv(i + 1))
                     elif o.kind == "break":
@@ -538,7 +561,9 @@ class StmtMixin:
                 if spec.decreases:
                     m0 = self.spec_eval(spec.decreases, sb).z
                     self.oblige(sb, "decreases", f"loop{ordn}:bounded", m0 >= 0, node)
-                for o in self.exec_block(node.body, sb):
+                body_outs = self.exec_block(node.body, sb)
+                self.check_loop_writes(node, sb, body_outs)
+                for o in body_outs:
                     if o.kind in ("fall", "continue"):
                         self.check_invs(spec, o.st, "inv-step", ordn, node)
                         if spec.decreases:
